@@ -185,6 +185,16 @@ theorem C17_mask_roundtrip (offset : Int) (attrs : List (Name × Int)) (vals S :
       toValues offset mask vals = .ok (vals.filter fun m => decide (m ∈ S)) :=
   ⟨_, mask_roundtrip offset attrs vals S hoff hnd hS⟩
 
+/-- `to_string` of the mask of a set of captured members names exactly those members, in enumeration order.  (Like
+`to_values` and `to_bitmask` it is a function of its argument alone: a caller that edits a list it got back from an
+earlier call cannot change what a later call returns.) -/
+theorem C17_mask_to_string (offset : Int) (attrs : List (Name × Int)) (vals S : List EnumMember)
+    (hoff : ∀ m ∈ vals, offset ≤ m.value) (hnd : (vals.map (·.value)).Nodup) (hS : ∀ m ∈ S, m ∈ vals) :
+    ∃ mask, toBitmask offset attrs (S.map fun m => .val m.value) = .ok mask ∧
+      maskToString offset mask vals = .ok (joinCommaSpace ((vals.filter fun m => decide (m ∈ S)).map (·.str))) := by
+  obtain ⟨h1, h2⟩ := mask_roundtrip offset attrs vals S hoff hnd hS
+  exact ⟨_, h1, by simp only [maskToString, h2]⟩
+
 /-- The same for the mask derived from a class body at any point of any history: `enum_bitmask` captures `list(E)`,
 which is the canonical members whatever has been converted before, and their values are distinct by construction. -/
 theorem C17_mask_roundtrip_enum (d : List (Name × Int)) (hd : enumOk d = true) (ops : List EnumOp) (offset : Int)
@@ -241,6 +251,7 @@ example : enumOk c17Body = true := by decide
 #guard enumErrIs ((DynEnum.ofDefined c17Body).getItem [95, 85, 95, 51]) .keyError
 #guard enumOkIs (toBitmask (-1) [] [.val 7, .val 0]) 258
 #guard enumOkIs (toValues (-1) 258 (canonicalMembers c17Body)) [⟨[65], 0⟩, ⟨[68], 7⟩]
+#guard enumOkIs (maskToString (-1) 258 (canonicalMembers c17Body)) [65, 44, 32, 68]                    -- 'A, D'
 #guard PyEnums.all.length > 30 && PyEnums.masks.length ≥ 1
 
 end FeVerif
